@@ -19,14 +19,17 @@ SPEC = dict(
                'unchanged. the VALUES condensation writes (a rule\'s modifications appended in rule order) and parse_static_mods (rule text) are bounded only.',
     level_note='regex (re.finditer on single letters), text splitting of the rule and the resolver are exercised, not modelled.',
     design_ref='DESIGN.md section 6, C12',
-    contracts=['labelcomp', 'condstatic', 'masssum'], targets={'masssum': ['LEMMAS']},
+    contracts=['labelcomp', 'condstatic', 'masssum', 'stores'], targets={'masssum': ['LEMMAS']},
     technique='weakest-precondition VCs from the real AST of apply_isotope_mods_to_composition against a sidecar contract; lemmas over the '
               'proved contract of mass(); both discharged by z3 / cvc5; bounded run-time relational check of the real calculators against an independently constructed explicit form and NIST '
               'isotope masses (labelled stand-in)',
     bounded=[dict(name='C12-bounded', script='bounded/C12.py')],
     replay_finder='bounded/C12.py',
     explanation='isotope relabelling of compositions and terminal-rule lemmas proved; rule form vs explicit form bounded',
-    proved_clauses=['condensing writes on exactly the positions the residue rules match, keeps everything else (which positions; values bounded)',
+    proved_clauses=['the stores condensing writes through (add_internal_mods in append mode, add_nterm_mods / add_cterm_mods): a matched position gets the '
+                    'normalised rule modifications APPENDED to what it carries (or stored, if it carried none), other positions and fields untouched '
+                    '(contracts/stores.py, exact values)',
+                    'condensing writes on exactly the positions the residue rules match, keeps everything else (which positions; values bounded)',
                     'isotope label: all atoms of the element move to the labelled isotope (accumulating), nothing else changes, absent element unchanged',
                     'terminal static rule == explicit terminal modification (mass); absent residue target changes nothing'],
     bounded_clauses=['rule form == explicit form: mass, composition, counts, fragments, condensation', 'isotope label shift == atoms x mass difference; use_isotope_on_mods; absent element unchanged'],
